@@ -300,7 +300,7 @@ func parseGRPCStatus(h http.Header) (e *ErrSpec, present bool, problem string) {
 		return nil, false, ""
 	}
 	if len(vals) > 1 {
-		return nil, true, "multiple grpc-status values"
+		return &ErrSpec{Code: -1, Msg: "ambiguous"}, true, fmt.Sprintf("multiple grpc-status values %q", vals)
 	}
 	code, err := strconv.ParseUint(vals[0], 10, 32)
 	if err != nil {
@@ -1140,6 +1140,19 @@ func sameErr(a, b *ErrSpec) bool {
 	}
 	for i := range a.Details {
 		if a.Details[i].Type != b.Details[i].Type || !bytes.Equal(a.Details[i].Value, b.Details[i].Value) {
+			return false
+		}
+	}
+	return true
+}
+
+// sawSuccess: would a client library report this RPC as successful? (status OK and every message decodable)
+func (o *Outcome) sawSuccess() bool {
+	if o == nil || o.Kind != "ok" {
+		return false
+	}
+	for _, m := range o.Msgs {
+		if m == nil {
 			return false
 		}
 	}
